@@ -474,7 +474,7 @@ fn rule_for(prop: &str) -> String {
     let nontrivial = "a case is non-trivial when it was not discarded, at least one non-baseline schedule/hint/consumer decision actually fired in one of its executions, and the query produced >= 1 row or rejected >= 1 candidate; distinct = distinct digests of (schema text, query text, complete adapter event logs of all executions)";
     let specific = match prop {
         "C01" => "oracle: row multiset under the lazy schedule S0 and under one random schedule with hint pruning equals the reference model's, and so does a third execution through the BasicAdapter flavour (blanket impl + helper functions, chunked read-ahead); ",
-        "C02" => "oracle: row sequence under 3 independently drawn read-ahead schedules and under 2-3 interleaved live result iterators equals the lazy baseline's, as does the BasicAdapter flavour; ",
+        "C02" => "oracle: row sequence under 3 independently drawn read-ahead schedules and under 2-3 interleaved live result iterators (same compiled query, and two different compiled queries over the same world on one adapter, each against its own solo run) equals the lazy baseline's, as does the BasicAdapter flavour; ",
         "C03" => "oracle: under S0, starting vertices pulled when row k is produced == least number of leading starting vertices contributing k rows (per-start counts measured with the engine itself), nothing pulled before the first next(), no adapter event after drop; consumer stops at tape-chosen k; ",
         "C04" => "oracle: row sequence with hint pruning at a tape-chosen subset of sites equals the hints-ignored run; ",
         "C05" => "oracle: every resolve_property(vid, p) has p in required_properties() at that call and in the list reported when vid was resolved; ",
